@@ -125,6 +125,9 @@ func genInput(p *Prop, i int, r *Rand, tier string) interface{} {
 func genMeta(r *Rand) caseMeta {
 	m := caseMeta{SwitchDen: r.Pick(1, 1, 2, 4, 10, 30), ArmSeed: r.Uint64()}
 	m.ArmPct = r.Pick(0, 0, 0, 5, 20, 50)
+	if r.Chance(1, 4) {
+		m.PCTDen = r.Pick(5, 20, 100, 1000)
+	}
 	return m
 }
 
@@ -214,7 +217,7 @@ func workerRun(t *testing.T) {
 		gr := NewRand(seed)
 		meta := genMeta(gr)
 		in := genInput(p, i, gr, tier)
-		ch := &chooser{mode: modeGen, rng: NewRand(mix(seed, 0x5eed)), switchDen: meta.SwitchDen}
+		ch := &chooser{mode: modeGen, rng: NewRand(mix(seed, 0x5eed)), switchDen: meta.SwitchDen, pctDen: meta.PCTDen}
 		inJSON := mustJSON(in)
 		cr := execCase(t, p, in, meta, ch, tier, false)
 		out.Runs++
@@ -385,7 +388,7 @@ func workerHashes(t *testing.T) {
 		gr := NewRand(seed)
 		meta := genMeta(gr)
 		in := genInput(p, i, gr, tier)
-		ch := &chooser{mode: modeGen, rng: NewRand(mix(seed, 0x5eed)), switchDen: meta.SwitchDen}
+		ch := &chooser{mode: modeGen, rng: NewRand(mix(seed, 0x5eed)), switchDen: meta.SwitchDen, pctDen: meta.PCTDen}
 		cr := execCase(t, p, in, meta, ch, tier, os.Getenv("SIM_DUMPLOG") != "")
 		if os.Getenv("SIM_DUMPLOG") != "" {
 			fmt.Println("INPUT", string(mustJSON(in)))
